@@ -481,7 +481,7 @@ def run(ctx):
             if enc_opt and rng.random() < 0.6:
                 # half-plausible chunked garbage
                 data = b"".join(rng.choice((b"%x\r\n" % rng.randint(0, 40), b"\r\n", b"0\r\n\r\n", b"0\r\n", b"0\r\nX: y\r\n", b"zz\r\n",
-                                            b"-5\r\n", b"ffffffff\r\n", b"f" * rng.randint(15, 40) + b"\r\n",
+                                            b"-5\r\n", b"-ff\r\n", b"-8000000000000000\r\n", b"-1\r\n", b"ffffffff\r\n", b"f" * rng.randint(15, 40) + b"\r\n",
                                             b"7fffffffffffffff\r\n", b"8000000000000000\r\n", b"1" + b"0" * 30 + b"\r\n",
                                             b"0x10\r\n", b" 5 \r\n", b"5;ext=1\r\n", b"+3\r\n", b"1_0\r\n",
                                             bytes(rng.getrandbits(8) for _ in range(rng.randint(1, 30)))))
@@ -529,7 +529,7 @@ def long_structures(ctx, rng):
         ctx.hit("long:many_distinct_station_messages")
     if w == 2 or not ctx.quick:
         # > 2000 complete NMEA / UBX items in a row, then a frame
-        mid = b"".join(streams.nmea(rng, 16) if rng.random() < 0.6 else streams.ubx(rng, 10) for _ in range(2400))
+        mid = b"".join(streams.nmea(rng, 16, sloppy=True) if rng.random() < 0.6 else streams.ubx(rng, 10) for _ in range(2400))
         _stream(ctx, mid + streams.rand_frame(rng, "defined")[0], {}, rng.choice((0, 1, 2)), 1, 0, "file", {})
         ctx.hit("long:foreign_runs")
     if w == 3 or not ctx.quick:
